@@ -192,8 +192,65 @@ pub const DML: Kind = Kind { directed: true, multi: true, loops: true };
 pub const UML: Kind = Kind { directed: false, multi: true, loops: true };
 
 /// the graph families shared by the path-based properties (C04, C05, C06, C08)
-pub fn path_families(tier: &str) -> Vec<Family> {
+/// small primed families (every graph re-checked after each primer call on its thread)
+pub fn primed_small(walpha: &'static str, nmax: usize) -> Vec<Family> {
     let mut v = vec![];
+    for n in 0..=nmax {
+        for k in [DS, US] {
+            v.push(fam_primed(k, n, walpha, &ORD_ONE));
+        }
+    }
+    v
+}
+
+/// small families with query -> mutate -> query histories on every graph (see e2::MUTATION_LABELS)
+pub fn hist_small(walpha: &'static str, multi_too: bool) -> Vec<Family> {
+    let mut v = vec![];
+    for k in [DS, US] {
+        v.push(fam_hist(k, 2, walpha, &ORD_ONE));
+        v.push(fam_hist(k, 3, walpha, &ORD_ONE));
+    }
+    v.push(fam_hist(DSL, 2, walpha, &ORD_ONE));
+    if multi_too {
+        v.push(fam_hist(UM, 2, walpha, &ORD_ONE));
+        v.push(fam_hist(DM, 2, walpha, &ORD_ONE));
+    }
+    v
+}
+
+/// small families built through every construction route (see e2::ROUTE_LABELS)
+pub fn route_small(walpha: &'static str, multi_too: bool) -> Vec<Family> {
+    let mut v = vec![];
+    for k in [US, DS, USL, DSL] {
+        v.push(fam(k, 2, walpha, &ORD_ROUTES));
+        if !k.loops {
+            v.push(fam(k, 3, walpha, &ORD_ROUTES));
+        }
+    }
+    if multi_too {
+        for k in [UM, DM, UML, DML] {
+            v.push(fam(k, 2, "u", &ORD_ROUTES));
+        }
+    }
+    v
+}
+
+pub fn path_families(tier: &str) -> Vec<Family> {
+    let mut v = primed_small("w12", 3);
+    v.push(fam(US, 4, "wtiny", &ORD_ONE));
+    v.push(fam(DS, 3, "wtiny", &ORD_ONE));
+    v.push(fam(US, 3, "whuge", &ORD_ONE));
+    v.push(fam(DS, 3, "whuge", &ORD_ONE));
+    // the same abstract graphs reached through other construction routes
+    for k in kinds_all() {
+        v.push(fam(k, 2, "w12", &ORD_ROUTES));
+        if !k.multi {
+            v.push(fam(k, 3, "w12", &ORD_ROUTES));
+        }
+    }
+    v.push(fam(UM, 3, "u", &ORD_ROUTES));
+    v.push(fam(DM, 3, "u", &ORD_ROUTES));
+    v.extend(hist_small("w12", true));
     if tier == "quick" {
         for n in 0..=3 {
             for k in kinds_all() {
